@@ -158,13 +158,13 @@ def proof_half(prop, tier):
     untr = [u.split(" (")[0] for u in info["translator"].get("untranslatable", [])]
     # safety net for defects of the translator itself: a generated file that does not even compile says nothing about the
     # code; the bridge modules over it are skipped like untranslatable ones and the fact is recorded
-    gen_groups = {"QhttpGen.Sock": "QhttpBridge.Sock.", "QhttpGen.Proxy": "QhttpBridge.Proxy.", "QhttpGen.Fs": "QhttpBridge.Fs.", "QhttpGen.Auth": "QhttpBridge.Auth", "QhttpGen.Slot": "QhttpBridge.Slot",
+    gen_groups = {"QhttpGen.Sock": "QhttpBridge.Sock.", "QhttpGen.Proxy": "QhttpBridge.Proxy.", "QhttpGen.Fs": "QhttpBridge.Fs.", "QhttpGen.Auth": ("QhttpBridge.Auth", "QhttpBridge.LocalAuth"), "QhttpGen.Slot": "QhttpBridge.Slot",
                   "QhttpGen.Range": "QhttpBridge.Range.", "QhttpGen.Parser": "QhttpBridge.Parser", "QhttpGen.Ack": "QhttpBridge.Ack",
                   "QhttpGen.Copier": "QhttpBridge.Copier", "QhttpGen.Tables": "QhttpBridge.Tables"}
     wanted = props.BRIDGES.get(prop, [])
     broken_gen = {}
     for gm, prefix in gen_groups.items():
-        if any(bm.startswith(prefix) for bm in wanted):
+        if any(bm.startswith(prefix) for bm in wanted):   # (str.startswith accepts a tuple of prefixes)
             okg, outg = lake_build([gm])
             if not okg:
                 broken_gen[gm] = outg[-800:]
